@@ -35,6 +35,8 @@ import sys
 import time
 import z3
 sys.path.insert(0, os.path.dirname(os.path.abspath(__file__)))
+# bound on the number of children / elements per node; the thorough tier of the driver raises it
+DEPTH = int(os.environ.get("MIRSYM_DEPTH", "3"))
 from mirsym import Engine, parse_mir, STD_MODELS, Unsupported, PanicFound, Ref, SliceRef, Opaque, is_sym
 
 
@@ -562,7 +564,7 @@ def main():
         run_prefix("visit_LogicalNot", "LOGICAL_NOT")
         run_prefix("visit_Negate", "NEGATE")
         for function in (ops["LOGICAL_AND"], ops["LOGICAL_OR"]):
-            for n in range(1, 65):
+            for n in range(1, (64 if DEPTH <= 3 else 160) + 1):
                 run_chain(n, function)
         shapes3 = ("ident", "neg", "literal")
         for text in ("<", "<=", ">", ">=", "==", "!=", "in"):
@@ -574,7 +576,7 @@ def main():
         for sh in [(a, b, c) for a in shapes3 for b in shapes3 for c in shapes3]:
             run_conditional(sh)
         for method, rule, function in (("visit_conditionalOr", "ConditionalOr", ops["LOGICAL_OR"]), ("visit_conditionalAnd", "ConditionalAnd", ops["LOGICAL_AND"])):
-            for n in range(1, 65):
+            for n in range(1, (64 if DEPTH <= 3 else 160) + 1):
                 run_visitor_chain(method, rule, function, n)
     except Unsupported as u:
         status = 2
